@@ -17,22 +17,33 @@ os.makedirs(BASE, exist_ok=True)
 sh(f"git -C /repo worktree remove --force {WT}"); shutil.rmtree(WT, ignore_errors=True); sh("git -C /repo worktree prune")
 rc, out = sh(f"git -C /repo worktree add -q --detach {WT} HEAD"); assert rc == 0, out
 crate = meta["demo_crate"]
-tests_dir = os.path.join(WT, "crates", crate, "tests")
-had_tests = os.path.isdir(tests_dir)
-os.makedirs(tests_dir, exist_ok=True)
-demo_dst = os.path.join(tests_dir, "seed_demo.rs")
-shutil.copy(os.path.join(seed, meta.get("demo_file", "demo.rs")), demo_dst)
+demo_file = meta.get("demo_file", "demo.rs")
 res = {"repo_head": sh("git -C /repo rev-parse --short HEAD")[1].strip(), "at": time.strftime("%Y-%m-%d %H:%M")}
-rc, out = sh(f"cargo test --offline -p {crate} --test seed_demo", cwd=WT)
-res["demo_on_clean"] = "pass" if rc == 0 else "FAIL"
-rc, out = sh(f"git apply {os.path.join(seed, 'patch.diff')}", cwd=WT)
-res["patch_applies"] = rc == 0
-rc, out = sh(f"cargo test --offline -p {crate} --test seed_demo", cwd=WT)
-res["demo_with_patch"] = "fail" if rc != 0 else "PASS(unexpected)"
-res["demo_with_patch_tail"] = out[-600:]
-os.remove(demo_dst)
-if not had_tests:
-    shutil.rmtree(tests_dir, ignore_errors=True)
+if demo_file.endswith(".sh"):
+    demo = os.path.join(seed, demo_file)
+    rc, out = sh(f"sh {demo} {WT}", cwd=WT)
+    res["demo_on_clean"] = "pass" if rc == 0 else "FAIL"
+    rc, out = sh(f"git apply {os.path.join(seed, 'patch.diff')}", cwd=WT)
+    res["patch_applies"] = rc == 0
+    rc, out = sh(f"sh {demo} {WT}", cwd=WT)
+    res["demo_with_patch"] = "fail" if rc != 0 else "PASS(unexpected)"
+    res["demo_with_patch_tail"] = out[-600:]
+else:
+    tests_dir = os.path.join(WT, "crates", crate, "tests")
+    had_tests = os.path.isdir(tests_dir)
+    os.makedirs(tests_dir, exist_ok=True)
+    demo_dst = os.path.join(tests_dir, "seed_demo.rs")
+    shutil.copy(os.path.join(seed, demo_file), demo_dst)
+    rc, out = sh(f"cargo test --offline -p {crate} --test seed_demo", cwd=WT)
+    res["demo_on_clean"] = "pass" if rc == 0 else "FAIL"
+    rc, out = sh(f"git apply {os.path.join(seed, 'patch.diff')}", cwd=WT)
+    res["patch_applies"] = rc == 0
+    rc, out = sh(f"cargo test --offline -p {crate} --test seed_demo", cwd=WT)
+    res["demo_with_patch"] = "fail" if rc != 0 else "PASS(unexpected)"
+    res["demo_with_patch_tail"] = out[-600:]
+    os.remove(demo_dst)
+    if not had_tests:
+        shutil.rmtree(tests_dir, ignore_errors=True)
 if "--no-suites" not in sys.argv:
     suites = {}
     for s in meta.get("suites", []):
